@@ -59,7 +59,7 @@ def apply_shard_env(kind):
         # whatever AUDITOK_* variable the library may look up IS set in this environment (to a plausible value): what the
         # statements fix - regions, windows, laziness, defaults - does not depend on the process environment
         real = os.environ
-        vals = ("8", "1", "0.15", "true", "16")
+        vals = ("8", "3", "0.15", "16", "2.5")
 
         def answer(key):
             try:
